@@ -62,6 +62,10 @@ class Check:
     def floor(self, rule, what, count, minimum):
         """Fail closed if a rule matched fewer instances than were confirmed by hand."""
         self.floors.append({"rule": rule, "what": what, "count": count, "floor": minimum})
+        if count < minimum and any(not i["ok"] for i in self.instances):
+            # rule instances already failed: report those (a verdict) rather than masking them by the count error
+            self.notes.append("floor not met for %s (%d < %d) while violations are being reported" % (rule, count, minimum))
+            return
         if count < minimum:
             raise AnalysisError("%s: matched %d %s, expected at least %d (anchor moved or shape "
                                 "unreadable; the rule refuses to pass vacuously)"
